@@ -11,7 +11,7 @@ from .. import tree
 from .. import pipeline as P
 
 
-def train_capture(wd, lines, rule='o', **opts):
+def train_capture(wd, lines, rule='o', raw_bytes=None, **opts):
     """Run the real trainer; additionally capture the AlphabetLookup object it saved (the third-pass model)."""
     tree.imp('lib_trainer.run_trainer')
     rt = sys.modules['lib_trainer.run_trainer']
@@ -26,7 +26,7 @@ def train_capture(wd, lines, rule='o', **opts):
         return orig(omen_trainer, omen_keyspace, omen_levels_count, num_valid_passwords, base_directory, program_info)
     rt.save_omen_rules_to_disk = wrapped
     try:
-        ok, base, out, pi = P.train(wd, lines, rule=rule, **opts)
+        ok, base, out, pi = P.train(wd, lines, rule=rule, raw_bytes=raw_bytes, **opts)
     finally:
         rt.save_omen_rules_to_disk = orig
     return ok, base, out, pi, cap
